@@ -113,7 +113,7 @@ def run_shard(desc, env):
     nctx, per = (14, 18) if env.tier == 'quick' else (260, 20)
     cases = ec.build_cases(rnd, env.tier, nctx, per, big=(env.tier != 'quick'), mutants=0.55)
     if desc['i'] == 0:
-        cases = boundary_cases() + cases
+        cases = boundary_cases() + ec.inlining_cases() + cases
     for cs, cr in env.execute(cases, chunk=12):
         judge(res, cs, cr)
     return res
